@@ -132,7 +132,11 @@ def encode(cmds, pad_bit=0):
     """cmds: ('L', b) | ('C', distance 1..4096, length 3..60) -> (bytes, stats)"""
     h = Huff()
     bw = BitWriter()
-    for cmd in cmds:
+    maxdist = 0
+    for k, cmd in enumerate(cmds):
+        if k % 1024 == 1023:
+            # how many different frequency values the tree's nodes hold at once (lhasa's decoder keeps one group per value)
+            maxdist = max(maxdist, len(set(h.freq[:T])))
         if cmd[0] == 'L':
             h.code(bw, cmd[1])
         else:
@@ -142,4 +146,5 @@ def encode(cmds, pad_bit=0):
             hi = p >> 6
             bw.put(P_CODE[hi], P_LEN[hi])
             bw.put(p & 63, 6)
-    return bw.bytes(pad_bit), {'reconsts': h.reconsts, 'tie_exchanges': h.tie_exchanges, 'exchanges': h.exchanges, 'max_code_bits': h.max_code_bits}
+    return bw.bytes(pad_bit), {'reconsts': h.reconsts, 'tie_exchanges': h.tie_exchanges, 'exchanges': h.exchanges, 'max_code_bits': h.max_code_bits,
+                               'max_distinct_freqs': max(maxdist, len(set(h.freq[:T])))}
